@@ -343,9 +343,9 @@ fn gen(seed: u64, n: usize, tier: &str) -> Vec<Value> {
         let sid = r.range(0, 3) as usize;
         let mut stages = vec![];
         for i in 0..=sid {
-            // a main stretch of 1..2 links, 3..15 km each
+            // a main stretch of 1..2 links, 3..30 km each (the dispatcher commits 10-mile chunks: meets need long mains)
             for _ in 0..r.range(1, 2) {
-                stages.push(json!(["M", r.range(30, 150)]));
+                stages.push(json!(["M", if r.chance(1, 2) { r.range(30, 120) } else { r.range(120, 300) }]));
             }
             if i < sid {
                 stages.push(json!(["S", r.range(20, 45)])); // 2..4.5 km
